@@ -15,9 +15,9 @@ RULE = ("(1) symbol audit, exhaustive over object files x configurations {x86-64
         "flags -fno-builtin -fno-threadsafe-statics -Os}: every undefined symbol of every object must be a C memory primitive, a compiler arithmetic helper or "
         "defined inside the library; (2) write-protection monitor: after loading, every writable segment of the library image is made read-only and the complete "
         "quick call alphabets of the other properties are executed - any store to library-global state faults; (3) schedule exploration on the real code: 2 real "
-        "threads (3 in the thorough tier), each running one operation of a 45-entry menu covering every source file (field, curve, pairing, sampling, WKD-IBE and LQ-IBE operations; the caller's hash callback is an explicit scheduling point), on shared const inputs and distinct outputs; "
+        "threads (3 in the thorough tier), each running one operation of a 47-entry menu covering every source file (field, curve, pairing, sampling, WKD-IBE and LQ-IBE operations; the caller's hash callback is an explicit scheduling point), on shared const inputs and distinct outputs; "
         "scheduling points = compiler-inserted function-entry hooks at call depth <= D; ALL schedules with <= B preemptions are executed (B iterated 0,1,2; 3 for every small operation against itself in the thorough tier) and each "
-        "thread's output must equal the sequential result; recorded schedules replay deterministically; (4) free-running ThreadSanitizer pass of the same operation "
+        "thread's output must equal the sequential result and the shared inputs (all passed as const) must be byte-identical afterwards; recorded schedules replay deterministically; (4) free-running ThreadSanitizer pass of the same operation "
         "bodies on 16 threads. states = executions (schedules); transitions = scheduling points visited; non-trivial = schedule with at least one preemption")
 ASSUMPTIONS = ["the scheduler serialises threads (sequential consistency); the library contains no atomics or fences, so data races are the only weaker-memory concern "
                "and are covered by (2) and (4)", "preemption inside leaf functions (assembly routines, non-instrumented code) is not explored",
@@ -33,10 +33,10 @@ MENU_SMALL = ["fq_inverse", "fq_sqrt", "fr_sqrt", "fq2_multiply", "fq2_sqrt", "f
 MENU_MEDIUM = ["g1_multiply_short", "g2_multiply_short", "gt_multiply_short", "g1_encode_decode", "hash_to_g1", "hash_to_id", "g1_random", "lqibe_keygen"]
 MENU_LARGE = ["g1_multiply", "g2_multiply", "gt_multiply", "g2_encode_decode", "hash_to_g2", "pairing", "final_exponentiation", "wkdibe_encrypt", "wkdibe_decrypt",
               "g2_random", "gt_random", "prepared_pairing", "g2_prepare", "wkdibe_keygen", "wkdibe_qualifykey", "wkdibe_sign", "wkdibe_verify",
-              "lqibe_encrypt0", "lqibe_decrypt0"]
+              "lqibe_encrypt0", "lqibe_decrypt0", "wkdibe_params_marshal", "wkdibe_precompute"]
 # pairs of the same operation on DIFFERENT inputs (a shared scratch object filled with the same bytes by both threads would go unnoticed)
 EXTRA_PAIRS = [("lqibe_encrypt0", "lqibe_encrypt1"), ("lqibe_decrypt0", "lqibe_decrypt1"), ("lqibe_encrypt0", "lqibe_decrypt1"), ("wkdibe_keygen", "wkdibe_qualifykey"),
-               ("wkdibe_sign", "wkdibe_keygen"), ("g2_multiply", "wkdibe_keygen"), ("g2_random", "g2_multiply")]
+               ("wkdibe_sign", "wkdibe_keygen"), ("g2_multiply", "wkdibe_keygen"), ("g2_random", "g2_multiply"), ("wkdibe_params_marshal", "wkdibe_precompute"), ("wkdibe_params_marshal", "wkdibe_sign")]
 WP_CHECKS_QUICK = ["C01", "C04", "C05", "C07", "C08", "C09", "C10", "C12", "C13", "C16"]
 WP_CHECKS_THOROUGH = WP_CHECKS_QUICK + ["C02", "C06", "C11", "C14", "C15", "C18", "C19"]
 
@@ -271,6 +271,7 @@ def run_shard(ctx, shard):
     ctx.sample({"sub": "explore", "ops": shard["ops"], "bound": shard["bound"], "depth": shard["depth"], "executions": stat["executions"], "max_points": stat["max_points"]}, limit=2)
     for f in fails[:2]:
         ctx.fail({"sub": "schedule", "ops": f["ops"], "depth": shard["depth"], "first": f["first"], "choices": f["choices"]},
+                 ("threads %s: an operation modified the shared inputs it takes as const (schedule first=%d choices=%s)" % (f["ops"], f["first"], f["choices"])) if f.get("const_inputs_modified") else
                  "threads %s: output of thread %d differs from the sequential result under schedule first=%d choices=%s" % (f["ops"], f["thread"], f["first"], f["choices"]),
                  sig="schedule:%s" % "+".join(f["ops"]))
     if stat["failures"] and not fails:
